@@ -43,6 +43,19 @@ def gen_micro():
     return True, ""
 
 
+def gen_gomini():
+    """gomini/unify.go -> coq/gen/GominiGen.v (the gomini dialect of genmicro: reflecttools calls as the primitives of GoLiteG.v)."""
+    os.makedirs(vc.BUILD, exist_ok=True)
+    binp = os.path.join(vc.BUILD, "genmicro")
+    rc, out = vc.run(["go", "build", "-o", binp, "./cmd/genmicro"], cwd=vc.HARNESS, timeout=600, env=vc.GOENV)
+    if rc != 0:
+        return False, "genmicro does not build: " + out[-1500:]
+    rc, out = vc.run([binp, "-gomini", vc.REPO, os.path.join(vc.COQ, "gen")], cwd=vc.VERIF, timeout=120, env=vc.GOENV)
+    if rc != 0:
+        return False, "genmicro -gomini: " + out[-1500:]
+    return True, ""
+
+
 def gen_tables():
     import gen_tables as gt
     return gt.generate(vc.REPO, os.path.join(vc.COQ, "gen"))
